@@ -61,9 +61,7 @@ class PageFeatureProcessor:
         # --- Logic from DocumentService.apply_pagination_borders ---
 
         # 1. First Page Logic
-        has_column_headers = (
-            document.rtf_column_header and len(document.rtf_column_header) > 0
-        )
+        has_column_headers = self._has_rendered_column_header(document)
 
         # If first page, NO headers, apply PAGE border_first to top of body
         if (
@@ -176,6 +174,26 @@ class PageFeatureProcessor:
                     )
 
         return page_attrs
+
+    def _has_rendered_column_header(self, document) -> bool:
+        """True if at least one column header row is rendered above the body.
+
+        Placeholders (``None`` in multi-section header lists) and headers without
+        text when ``as_colheader`` is off render nothing, so the body's first row
+        is then the first row of the table.
+        """
+        headers: list = []
+        for header in document.rtf_column_header or []:
+            if isinstance(header, (list, tuple)):
+                headers.extend(header)
+            else:
+                headers.append(header)
+
+        auto_text = bool(getattr(document.rtf_body, "as_colheader", True))
+        return any(
+            header is not None and (header.text is not None or auto_text)
+            for header in headers
+        )
 
     def _apply_body_border_first(self, document, page_attrs, page_df_width, page_shape):
         """Helper to apply body border_first logic."""
